@@ -73,7 +73,12 @@ type Engine struct {
 	solverLog string
 }
 
-const repoDir = "/repo"
+var repoDir = func() string {
+	if d := os.Getenv("VERIF_REPO"); d != "" {
+		return d
+	}
+	return "/repo"
+}()
 
 func verifDir() string {
 	if d := os.Getenv("VERIF_DIR"); d != "" {
